@@ -1,4 +1,176 @@
-import MgModel.C11.ArrayList
+import MgProof.C11.LemmasAL
+/-!
+# C11 — property theorems (sequence containers and pointer slot)
+
+Statement (properties.jsonl): array list, linked list, queue and stack behave as a
+reference sequence for every operation history: positions (including negative
+indices), insert-before / append-after, removal, clearing and growth beyond the
+initial capacity (with and without the node pool) yield exactly the model's
+contents and size, and invalid positions are rejected without effect. The pointer
+slot, for every requested capacity, hands out indices unique among live entries,
+resolves an index to its pointer until removed, refuses inserts when full and
+double removals, and iterates live entries in insertion order.
+
+Quantifiers of the theorems: every initial capacity, every operation list of every
+length, every `int` index, every datum (including NULL), with and without the free
+callback. The only size hypothesis is the one the C code itself enforces
+(`MUGGLE_DS_CAP_IS_VALID`): fewer than `2^30` stored elements, so that doubling
+the capacity stays below `2^31`.
+-/
 namespace MgProof.C11
-theorem stub : True := trivial
+open MgModel.C11
+
+/-! ## Array list -/
+namespace AL
+open MgModel.C11.AL
+
+/-- **Array list, one call.** In a state representing the sequence `l`, every API
+call succeeds (no out-of-bounds access, no read of unwritten storage), returns
+exactly what the reference sequence returns (node offset, success flag, the data
+handed to the free callback, the contents) and ends in a state representing the
+reference result. -/
+theorem step_refines {s : AL} {l : List Val} (inv : Inv s l) (hsmall : l.length < 2 ^ 30)
+    (op : Op) :
+    ∃ s', step s op = .ok (s', (specStep l op).2) ∧ Inv s' (specStep l op).1 ∧
+      (specStep l op).1.length ≤ l.length + 1 := by
+  cases op with
+  | insert i v =>
+    obtain ⟨s', h, inv'⟩ := insert_refines inv hsmall i v
+    refine ⟨s', by simp [step, specStep, h, bind, Except.bind, pure, Except.pure], inv', ?_⟩
+    simp only [specStep, specInsert]
+    cases specPos l i <;> simp [List.length_insertIdx] <;> split <;> omega
+  | append i v =>
+    obtain ⟨s', h, inv'⟩ := append_refines inv hsmall i v
+    refine ⟨s', by simp [step, specStep, h, bind, Except.bind, pure, Except.pure], inv', ?_⟩
+    simp only [specStep, specAppend]
+    cases specPos l i with
+    | none => simp
+    | some k =>
+      by_cases hl : l = []
+      · simp [hl]
+      · simp [hl, List.length_insertIdx]; split <;> omega
+  | remove i fr =>
+    obtain ⟨s', h, inv'⟩ := remove_refines inv i fr
+    refine ⟨s', by simp [step, specStep, h, bind, Except.bind, pure, Except.pure], inv', ?_⟩
+    simp only [specStep, specRemove]
+    cases normIndex l.length i <;> simp [List.length_eraseIdx] <;> split <;> omega
+  | get i =>
+    exact ⟨s, by simp [step, specStep, index_refines inv, bind, Except.bind, pure, Except.pure], inv,
+      by simp [specStep]⟩
+  | find i v =>
+    exact ⟨s, by simp [step, specStep, find_refines inv, bind, Except.bind, pure, Except.pure], inv,
+      by simp [specStep]⟩
+  | clear fr =>
+    obtain ⟨s', h, inv'⟩ := clear_refines inv fr
+    exact ⟨s', by simp [step, specStep, h, bind, Except.bind, pure, Except.pure], inv',
+      by simp [specStep, specClear]⟩
+  | ensure c =>
+    obtain ⟨s', h, inv', _⟩ := ensureCapacity_inv inv c
+    exact ⟨s', by simp [step, specStep, h, bind, Except.bind, pure, Except.pure], inv',
+      by simp [specStep]⟩
+  | dump =>
+    exact ⟨s, by simp [step, specStep, contents_refines inv, inv.size, bind, Except.bind, pure,
+      Except.pure], inv, by simp [specStep]⟩
+
+/-- **Array list, every history.** From any state representing `l`, every operation
+list (any length, any `int` indices, growth included) runs without error and
+returns exactly the answers of the reference sequence; the final state represents
+the reference result. -/
+theorem run_refines (ops : List Op) : ∀ {s : AL} {l : List Val}, Inv s l →
+    l.length + ops.length < 2 ^ 30 →
+    ∃ s', run s ops = .ok (s', (specRun l ops).2) ∧ Inv s' (specRun l ops).1 := by
+  induction ops with
+  | nil => intro s l inv _; exact ⟨s, rfl, inv⟩
+  | cons op ops ih =>
+    intro s l inv hsmall
+    simp only [List.length_cons] at hsmall
+    obtain ⟨s1, h1, inv1, hlen⟩ := step_refines inv (by omega) op
+    obtain ⟨s2, h2, inv2⟩ := ih inv1 (by omega)
+    exact ⟨s2, by simp [run, specRun, h1, h2, bind, Except.bind, pure, Except.pure], by
+      simpa [specRun] using inv2⟩
+
+/-- **C11, array list.** A list created by `muggle_array_list_init` with any
+capacity (`0` = default `8`; growth happens whenever `size = capacity`) behaves as
+the empty reference sequence under every history. -/
+theorem array_list_behaves_as_sequence {c : Nat} {s : AL} (h : init c = some s) (ops : List Op)
+    (hsmall : ops.length < 2 ^ 30) :
+    ∃ s', run s ops = .ok (s', (specRun [] ops).2) ∧ Inv s' (specRun [] ops).1 := by
+  exact run_refines ops (inv_init h) (by simpa using hsmall)
+
+/-- `init` refuses exactly the capacities `≥ 2^31` -/
+theorem init_none_iff (c : Nat) : init c = none ↔ 2 ^ 31 ≤ c := by
+  unfold init capValid
+  by_cases hc : c = 0
+  · simp [hc]
+  · by_cases h : c < 2 ^ 31
+    · simp [hc, h] <;> omega
+    · simp [hc, h] <;> omega
+
+/-- **Index normalisation.** `muggle_array_list_get_index` maps `0 ≤ i < n` to `i`,
+`-n ≤ i < 0` to `n + i`, and rejects every other `int`. -/
+theorem getIndex_spec (n : Nat) (i : Int) (k : Nat) :
+    getIndex n i = some k ↔ (0 ≤ i ∧ i < n ∧ (k : Int) = i) ∨ (i < 0 ∧ -i ≤ n ∧ (k : Int) = n + i) := by
+  rw [getIndex_eq]
+  unfold normIndex
+  by_cases h0 : 0 ≤ i
+  · by_cases h1 : i < (n : Int)
+    · simp [h0, h1] <;> omega
+    · simp [h0, h1] <;> omega
+  · by_cases h1 : -i ≤ (n : Int)
+    · simp [h0, h1] <;> omega
+    · simp [h0, h1] <;> omega
+
+/-- **Invalid positions are rejected without effect.** If `i` addresses no element
+(and is not the `0`/`-1` shortcut on an empty list), insert and append return NULL,
+remove returns false and calls no callback, index returns NULL — and the state
+still represents the same sequence (same contents, same size). -/
+theorem invalid_position_rejected {s : AL} {l : List Val} (inv : Inv s l)
+    (hsmall : l.length < 2 ^ 30) (i : Int) (v : Val) (fr : Bool) (hbad : specPos l i = none) :
+    (∃ s', AL.insert s i v = .ok (s', none) ∧ Inv s' l) ∧
+    (∃ s', AL.append s i v = .ok (s', none) ∧ Inv s' l) ∧
+    AL.remove s i fr = .ok (s, false, []) ∧
+    AL.index s i = .ok none := by
+  have hn : normIndex l.length i = none := by
+    unfold specPos at hbad
+    cases h : normIndex l.length i with
+    | none => rfl
+    | some k => rw [h] at hbad; simp at hbad
+  refine ⟨?_, ?_, ?_, ?_⟩
+  · simpa [specInsert, hbad] using insert_refines inv hsmall i v
+  · simpa [specAppend, hbad] using append_refines inv hsmall i v
+  · unfold AL.remove; rw [getIndex_eq, inv.size, hn]; rfl
+  · rw [index_refines inv]; simp [specIndex, hn]
+
+/-- the pinned tree's `get_index` (before fixes/C11-array-list-int-min.patch) hits
+signed-overflow UB for `INT_MIN` and agrees with the fixed one everywhere else -/
+theorem getIndexOrig_int_min (n : Nat) : getIndexOrig n (-(2 : Int) ^ 31) = .error .ub := by
+  unfold getIndexOrig; simp
+
+theorem getIndexOrig_eq (n : Nat) (i : Int) (h : i ≠ -(2 : Int) ^ 31) :
+    getIndexOrig n i = .ok (getIndex n i) := by
+  unfold getIndexOrig
+  by_cases h0 : i ≥ 0
+  · simp [h0]
+  · have : ¬ i = -(2 : Int) ^ 31 := h
+    simp only [h0, this, if_false]
+
+/-- **Ownership.** `clear` hands every non-NULL stored datum to the callback exactly
+once, in order (and nothing without a callback). -/
+theorem clear_frees_each_once {s : AL} {l : List Val} (inv : Inv s l) :
+    ∃ s', AL.clear s true = .ok (s', l.filter (· ≠ 0)) ∧ Inv s' [] := by
+  simpa [specClear] using clear_refines inv true
+
+/-! non-vacuity: a concrete history with growth, negative indices and a rejected position -/
+example : ∃ s, init 1 = some s ∧
+    (specRun [] [.append (-1) 5, .insert 0 6, .append (-1) 7, .insert 3 9, .remove (-3) true,
+      .get (-1), .dump]).2
+    = [.pos (some 0), .pos (some 0), .pos (some 2), .pos none, .removed true [6],
+       .cell (some (1, 7)), .contents 2 [5, 7]] ∧
+    (run s [.append (-1) 5, .insert 0 6, .append (-1) 7, .insert 3 9, .remove (-3) true,
+        .get (-1), .dump]).toOption.map (fun p => (p.2, p.1.capacity))
+      = some ([.pos (some 0), .pos (some 0), .pos (some 2), .pos none,
+          .removed true [6], .cell (some (1, 7)), .contents 2 [5, 7]], 4) := by
+  refine ⟨_, rfl, by decide, by decide⟩
+
+end AL
 end MgProof.C11
